@@ -1395,6 +1395,170 @@ def normalise_expressions(prog):
 
         fnode.body = walk(fnode.body)
 
+    def prealloc_to_comprehension(fnode):
+        """T = [None] * len(F) ; for i, x in enumerate(F): T[i] = E            ->  T = [E for x in F]
+        n = len(F) ; T = [None] * (2 * n) ; for i, x in enumerate(F): T[i] = A ; T[n + i] = B   ->  T = [A for x in F] + [B for x in F]
+        (a result list pre-allocated and filled by position: the positions are exactly those of the comprehension)"""
+        def walk(stmts):
+            out = list(stmts)
+            for st in out:
+                for fld in ("body", "orelse", "finalbody"):
+                    sub = getattr(st, fld, None)
+                    if isinstance(sub, list) and sub and isinstance(sub[0], ast.stmt) and not isinstance(st, (ast.FunctionDef, ast.ClassDef)):
+                        setattr(st, fld, walk(sub))
+            i = 0
+            while i < len(out) - 1:
+                a, lp = out[i], out[i + 1]
+                ok = isinstance(a, ast.Assign) and len(a.targets) == 1 and isinstance(a.targets[0], ast.Name) and isinstance(a.value, ast.BinOp) \
+                    and isinstance(a.value.op, ast.Mult) and unparse(a.value.left) == "[None]" and isinstance(lp, ast.For) and not lp.orelse \
+                    and isinstance(lp.iter, ast.Call) and unparse(lp.iter.func) == "enumerate" and len(lp.iter.args) == 1 and not lp.iter.keywords \
+                    and isinstance(lp.target, ast.Tuple) and len(lp.target.elts) == 2 and all(isinstance(e, ast.Name) for e in lp.target.elts)
+                if ok:
+                    T, F = a.targets[0].id, lp.iter.args[0]
+                    iv, xv = lp.target.elts[0].id, lp.target.elts[1]
+                    size = unparse(a.value.right)
+                    ftxt = unparse(F)
+                    # `n = len(F)` aliases defined just before
+                    nal = {unparse(b.targets[0]): unparse(b.value) for b in out[:i] if isinstance(b, ast.Assign) and len(b.targets) == 1 and isinstance(b.targets[0], ast.Name)}
+                    def res(t):
+                        return nal.get(t, t)
+                    stores = [b for b in lp.body if isinstance(b, ast.Assign) and len(b.targets) == 1 and isinstance(b.targets[0], ast.Subscript)
+                              and unparse(b.targets[0].value) == T]
+                    clean = len(stores) == len(lp.body) and not any(isinstance(n, ast.Name) and n.id in (T, iv) for b in stores for n in ast.walk(b.value))
+                    idx = [unparse(b.targets[0].slice) for b in stores]
+                    n1 = f"len({ftxt})"
+                    new_val = None
+                    if clean and len(stores) == 1 and idx == [iv] and res(size) == n1:
+                        new_val = ast.ListComp(elt=stores[0].value, generators=[ast.comprehension(target=xv, iter=F, ifs=[], is_async=0)])
+                    elif clean and len(stores) == 2 and idx[0] == iv and res(size.strip("()")) in (f"2 * {n1}", f"{n1} * 2") or \
+                            (clean and len(stores) == 2 and idx[0] == iv and size.strip("()") in tuple(f"2 * {k}" for k, v in nal.items() if v == n1)):
+                        second = idx[1]
+                        nn = [k for k, v in nal.items() if v == n1] + [n1]
+                        if any(second in (f"{k} + {iv}", f"{iv} + {k}") for k in nn):
+                            new_val = ast.BinOp(
+                                left=ast.ListComp(elt=stores[0].value, generators=[ast.comprehension(target=copy.deepcopy(xv), iter=copy.deepcopy(F), ifs=[], is_async=0)]),
+                                op=ast.Add(),
+                                right=ast.ListComp(elt=stores[1].value, generators=[ast.comprehension(target=copy.deepcopy(xv), iter=copy.deepcopy(F), ifs=[], is_async=0)]))
+                    if new_val is not None:
+                        new = ast.Assign(targets=a.targets, value=new_val)
+                        ast.copy_location(new, a)
+                        ast.fix_missing_locations(new)
+                        out[i:i + 2] = [new]
+                        continue
+                i += 1
+            return out
+
+        if any(isinstance(n, ast.BinOp) and isinstance(n.op, ast.Mult) and isinstance(n.left, ast.List) and unparse(n.left) == "[None]" for n in ast.walk(fnode)):
+            fnode.body = walk(fnode.body)
+
+    def test_temporaries(fnode):
+        """t1 = <side-effect free test> ; t2 = ... ; if <chain over t1, t2>: ...   with the temporaries used only in the tests of that
+        one if / elif chain: the tests are the expressions themselves (every test of a chain is evaluated before any of its bodies
+        runs, so nothing can have changed in between).  Marker constructors (Intercept()) count as side-effect free.
+        Also drops `n = len(X)` left without any use."""
+        def pure(e):
+            for n in ast.walk(e):
+                if isinstance(n, ast.Call) and not (isinstance(n.func, ast.Name) and (n.func.id in markers or n.func.id in ("len", "isinstance")) and not n.keywords):
+                    return False
+                if isinstance(n, (ast.NamedExpr, ast.Await, ast.Yield, ast.YieldFrom, ast.Lambda)):
+                    return False
+            return True
+
+        def walk(stmts):
+            out = list(stmts)
+            for st in out:
+                for fld in ("body", "orelse", "finalbody"):
+                    sub = getattr(st, fld, None)
+                    if isinstance(sub, list) and sub and isinstance(sub[0], ast.stmt) and not isinstance(st, (ast.FunctionDef, ast.ClassDef)):
+                        setattr(st, fld, walk(sub))
+            changed = True
+            while changed:
+                changed = False
+                for i, st in enumerate(out):
+                    if not (isinstance(st, ast.Assign) and len(st.targets) == 1 and isinstance(st.targets[0], ast.Name) and pure(st.value)):
+                        continue
+                    t = st.targets[0].id
+                    uses = [n for n in ast.walk(fnode) if isinstance(n, ast.Name) and n.id == t]
+                    if len(uses) == 1 and isinstance(st.value, ast.Call) and unparse(st.value.func) == "len":
+                        del out[i]          # an unused length
+                        changed = True
+                        break
+                    if not isinstance(st.value, (ast.Compare, ast.BoolOp, ast.UnaryOp)):
+                        continue
+                    # the chain: next non-temporary statement
+                    j = i + 1
+                    while j < len(out) and isinstance(out[j], ast.Assign) and len(out[j].targets) == 1 and isinstance(out[j].targets[0], ast.Name) \
+                            and isinstance(out[j].value, (ast.Compare, ast.BoolOp, ast.UnaryOp)) and pure(out[j].value) \
+                            and not any(isinstance(n, ast.Name) and n.id == t for n in ast.walk(out[j].value)):
+                        j += 1
+                    if j >= len(out) or not isinstance(out[j], ast.If):
+                        continue
+                    tests, cur = [], out[j]
+                    while True:
+                        tests.append(cur)
+                        if len(cur.orelse) == 1 and isinstance(cur.orelse[0], ast.If):
+                            cur = cur.orelse[0]
+                        else:
+                            break
+                    in_tests = [n for c_ in tests for n in ast.walk(c_.test) if isinstance(n, ast.Name) and n.id == t and isinstance(n.ctx, ast.Load)]
+                    stores = [n for n in uses if isinstance(n.ctx, ast.Store)]
+                    if len(stores) != 1 or len(in_tests) != len(uses) - 1 or not in_tests:
+                        continue
+                    val = st.value
+
+                    class R(ast.NodeTransformer):
+                        def visit_Name(s_, n):
+                            return ast.copy_location(copy.deepcopy(val), n) if n.id == t and isinstance(n.ctx, ast.Load) else n
+
+                    for c_ in tests:
+                        c_.test = R().visit(c_.test)
+                    del out[i]
+                    changed = True
+                    break
+            return out
+
+        fnode.body = walk(fnode.body)
+        ast.fix_missing_locations(fnode)
+
+    def local_accumulator_to_attribute(f):
+        """__init__ only: `acc = []` ... (acc filled) ... `self.A = acc` as the only use of the attribute A in the function and acc not
+        used after it except as a plain read: the list is the attribute from the start (`self.A = []`, then filled)"""
+        fnode = f.node
+        if fnode.name != "__init__" or not f.params:
+            return
+        me = f.params[0]
+        for i, st in enumerate(fnode.body):
+            if isinstance(st, ast.Assign) and len(st.targets) == 1 and isinstance(st.targets[0], ast.Attribute) and isinstance(st.targets[0].value, ast.Name) \
+                    and st.targets[0].value.id == me and isinstance(st.value, ast.Name):
+                acc, attr = st.value.id, st.targets[0].attr
+                inits = [b for b in fnode.body[:i] if isinstance(b, ast.Assign) and len(b.targets) == 1 and isinstance(b.targets[0], ast.Name) and b.targets[0].id == acc
+                         and isinstance(b.value, ast.List) and not b.value.elts]
+                n_stores = sum(1 for n in ast.walk(fnode) if isinstance(n, ast.Name) and n.id == acc and isinstance(n.ctx, ast.Store))
+                attr_uses = [n for n in ast.walk(fnode) if isinstance(n, ast.Attribute) and n.attr == attr and n is not st.targets[0]]
+                if len(inits) != 1 or n_stores != 1 or attr_uses or acc in f.params:
+                    continue
+                init = inits[0]
+                # every other statement: replace the local by the attribute
+                load = ast.Attribute(value=ast.Name(id=me, ctx=ast.Load()), attr=attr, ctx=ast.Load())
+
+                class R(ast.NodeTransformer):
+                    def visit_Name(s_, n):
+                        return ast.copy_location(copy.deepcopy(load), n) if n.id == acc and isinstance(n.ctx, ast.Load) else n
+
+                new_init = ast.Assign(targets=[copy.deepcopy(st.targets[0])], value=init.value)
+                ast.copy_location(new_init, init)
+                body = []
+                for b in fnode.body:
+                    if b is init:
+                        body.append(new_init)
+                    elif b is st:
+                        continue
+                    else:
+                        body.append(R().visit(b))
+                fnode.body = body
+                ast.fix_missing_locations(fnode)
+                return
+
     def attribute_aliases(f, keep):
         """`slices = self.slices` / `terms = self.terms` / `name = term.name`: a local bound ONCE to a plain attribute chain of a
         parameter or loop variable, in a function that stores no attribute of that name (and calls no method of its own class
@@ -1511,6 +1675,9 @@ def normalise_expressions(prog):
             # only in functions that differ from the reference (or are new), and never an alias the reference itself has
             if f.qual in getattr(prog, "differing", []) or f.qual not in ref_known:
                 split_chains_and_merge_tails(f.node)
+                prealloc_to_comprehension(f.node)
+                local_accumulator_to_attribute(f)
+                test_temporaries(f.node)
                 attribute_aliases(f, getattr(prog, "ref_aliases", {}).get(f.qual, set()))
             ast.fix_missing_locations(f.node)
         except Exception:  # noqa: BLE001
